@@ -97,7 +97,7 @@ LEAVES = {
                               "lt(p2,%s) & ne(0,%s) => Result::Ok{0} | p1.asset_share_value := %s" % (TOT, ASV, ASV)]],
                             "loss >= total deposits: share value 0 and kill; otherwise share value = (total - loss) / shares, kill iff that is zero"),
     "group.program_fees_enabled": ({"name": "program_fees_enabled", "crate": "marginfi"}, [["always => ne(0,bitand(1,p1.group_flags)) | -"], ["always => eq(bitand(1,p1.group_flags),1) | -"]], "PROGRAM_FEES_ENABLED (bit 0) of group_flags"),
-    "balance.is_empty": ({"name": "is_empty", "self_adt": "Balance"}, [["discr(p2) == 0 => lt(p1.asset_shares,%s) | -" % ONE, "discr(p2) == 1 => lt(p1.liability_shares,%s) | -" % ONE]], "a side is empty iff its shares < EMPTY_BALANCE_THRESHOLD (1)"),
+    "balance.is_empty": ({"name": "is_empty", "self_adt": "Balance"}, [["discr(p2)@BalanceSide == 0 => lt(p1.asset_shares,%s) | -" % ONE, "discr(p2)@BalanceSide == 1 => lt(p1.liability_shares,%s) | -" % ONE]], "a side is empty iff its shares < EMPTY_BALANCE_THRESHOLD (1)"),
     "balance.get_side": ({"name": "get_side", "self_adt": "Balance"}, [["le(%s,p1.asset_shares) & lt(p1.liability_shares,%s) => Option::Some{BalanceSide::Assets{}} | -" % (ONE, ONE),
                                                                        "le(%s,p1.liability_shares) & lt(p1.asset_shares,%s) => Option::Some{BalanceSide::Liabilities{}} | -" % (ONE, ONE),
                                                                        "lt(p1.asset_shares,%s) & lt(p1.liability_shares,%s) => Option::None{} | -" % (ONE, ONE)]], "the side of a balance; both non-empty is refused (assert)"),
